@@ -396,7 +396,32 @@ func c19Render(c *fw.Ctx, id string, where int, reused bool, d dst.Decorations, 
 	// a package-qualified identifier under import management (rendered by the hand-written
 	// identifier-to-selector expansion): its three points
 	var fi *dst.File
-	if k := where % (len(targets) + 3); k >= len(targets) {
+	aliasOverride := false
+	if k := where % (len(targets) + 5); k >= len(targets)+3 {
+		// the alias identifier of an import spec that the import manager has to rename
+		d2 := decorator.NewDecoratorWithImports(token.NewFileSet(), "example.com/self", goast.New())
+		fi, err = d2.Parse("package p\n\nimport f1 \"fmt\"\n\nfunc f() {\n\tg(f1.Println, 1)\n}\n")
+		if err != nil {
+			return
+		}
+		sp, ok := fi.Decls[0].(*dst.GenDecl).Specs[0].(*dst.ImportSpec)
+		if !ok || sp.Name == nil {
+			return
+		}
+		aliasOverride = true
+		if k == len(targets)+3 {
+			targets = append(targets, struct {
+				name string
+				at   *dst.Decorations
+			}{"Ident(import alias, renamed).Start", &sp.Name.Decs.Start})
+		} else {
+			targets = append(targets, struct {
+				name string
+				at   *dst.Decorations
+			}{"Ident(import alias, renamed).End", &sp.Name.Decs.End})
+		}
+		where = len(targets) - 1
+	} else if k >= len(targets) {
 		d2 := decorator.NewDecoratorWithImports(token.NewFileSet(), "example.com/self", goast.New())
 		fi, err = d2.Parse("package p\n\nimport \"fmt\"\n\nfunc f() {\n\tg(fmt.Println, 1)\n}\n")
 		if err != nil {
@@ -440,6 +465,9 @@ func c19Render(c *fw.Ctx, id string, where int, reused bool, d dst.Decorations, 
 		target = fi
 	}
 	fr := rst.FileRestorer()
+	if aliasOverride {
+		fr.Alias["fmt"] = "f2"
+	}
 	if reused {
 		warm, err := decorator.Parse("// warm-up: package\npackage w\n\n// warm-up: doc\nfunc w() { /* warm-up: body */ }\n")
 		if err != nil {
